@@ -530,3 +530,95 @@ func (m *Machine) safeEq(a, b Value) (res *sym.Term) {
 	}
 	return m.valueEq(a, b)
 }
+
+// deepEq is reflect.DeepEqual for the value kinds the executor has: structs
+// field by field, slices and arrays element by element (a nil slice differs
+// from an empty one), maps key by key (concrete keys), pointers by pointee,
+// functions equal only if both nil.
+func (m *Machine) deepEq(a, b Value, depth int) *sym.Term {
+	c := m.ctx
+	if depth > 24 {
+		m.notEnc("reflect.DeepEqual: nesting too deep")
+	}
+	switch x := a.(type) {
+	case Iface:
+		y, ok := b.(Iface)
+		if !ok {
+			return c.False
+		}
+		if x.T == nil || y.T == nil {
+			return c.Bool(x.T == nil && y.T == nil)
+		}
+		if !types.Identical(x.T, y.T) {
+			return c.False
+		}
+		return m.deepEq(x.V, y.V, depth+1)
+	case *Struct:
+		y := b.(*Struct)
+		parts := make([]*sym.Term, 0, len(x.F))
+		for i := range x.F {
+			parts = append(parts, m.deepEq(x.F[i], y.F[i], depth+1))
+		}
+		return c.And(parts...)
+	case *Array:
+		y := b.(*Array)
+		parts := make([]*sym.Term, 0, len(x.E))
+		for i := range x.E {
+			parts = append(parts, m.deepEq(x.E[i], y.E[i], depth+1))
+		}
+		return c.And(parts...)
+	case Slice:
+		y := b.(Slice)
+		if (x.Arr == nil) != (y.Arr == nil) || x.Len != y.Len {
+			return c.False
+		}
+		parts := make([]*sym.Term, 0, x.Len)
+		for i := 0; i < x.Len; i++ {
+			parts = append(parts, m.deepEq(m.load(m.kid(x.Arr, x.Off+i)), m.load(m.kid(y.Arr, y.Off+i)), depth+1))
+		}
+		return c.And(parts...)
+	case Map:
+		y := b.(Map)
+		if (x.M == nil) != (y.M == nil) {
+			return c.False
+		}
+		if x.M == nil {
+			return c.True
+		}
+		xl, yl := x.M.live(), y.M.live()
+		if len(xl) != len(yl) {
+			return c.False
+		}
+		parts := make([]*sym.Term, 0, len(xl))
+		for _, e := range xl {
+			f := m.mapFind(y.M, e.K)
+			if f == nil {
+				return c.False
+			}
+			parts = append(parts, m.deepEq(m.load(e.V), m.load(f.V), depth+1))
+		}
+		return c.And(parts...)
+	case Ptr:
+		y, ok := b.(Ptr)
+		if !ok {
+			return c.False
+		}
+		if x.C == nil || y.C == nil {
+			return c.Bool(x.C == nil && y.C == nil)
+		}
+		if x.C == y.C {
+			return c.True
+		}
+		return m.deepEq(m.load(x.C), m.load(y.C), depth+1)
+	case *Closure:
+		y, _ := b.(*Closure)
+		return c.Bool(x == nil && y == nil)
+	}
+	return m.valueEq(a, b)
+}
+
+func init() {
+	reg("reflect.DeepEqual", func(m *Machine, fn *ssa.Function, a []Value) Value {
+		return m.deepEq(a[0], a[1], 0)
+	})
+}
